@@ -14,6 +14,7 @@ import (
 	"github.com/enfein/mieru/v3/apis/model"
 	"github.com/enfein/mieru/v3/pkg/appctl/appctlpb"
 	"github.com/enfein/mieru/v3/pkg/common"
+	"github.com/enfein/mieru/v3/pkg/egress"
 	"github.com/enfein/mieru/v3/pkg/log"
 	"github.com/enfein/mieru/v3/pkg/stderror"
 )
@@ -158,7 +159,7 @@ func (s *Server) handleAssociatePacketOverStream(ctx context.Context, _ *model.R
 		return fmt.Errorf("failed to send reply: %w", err)
 	}
 
-	return RunUDPAssociateLoop(udpConn, apicommon.NewPacketOverStreamTunnel(proxyConn), s.config.Resolver)
+	return runUDPAssociateLoop(udpConn, apicommon.NewPacketOverStreamTunnel(proxyConn), s.config.Resolver, s.udpDestinationFilter(ctx, proxyConn))
 }
 
 func (s *Server) handleAssociateDatagram(ctx context.Context, _ *model.Request, proxyConn net.Conn) error {
@@ -188,7 +189,29 @@ func (s *Server) handleAssociateDatagram(ctx context.Context, _ *model.Request, 
 		return fmt.Errorf("failed to send reply: %w", err)
 	}
 
-	return runUDPAssociateDatagramLoop(udpConn, proxyConn, s.config.Resolver)
+	return runUDPAssociateDatagramLoop(udpConn, proxyConn, s.config.Resolver, s.udpDestinationFilter(ctx, proxyConn))
+}
+
+// udpDestinationFilter applies the private and loopback destination policy of
+// the connection's user to the destination of every datagram relayed through
+// a UDP association. The UDP ASSOCIATE request itself does not name the
+// destinations.
+func (s *Server) udpDestinationFilter(ctx context.Context, proxyConn net.Conn) udpDestinationFilter {
+	in := egress.Input{
+		Protocol: appctlpb.ProxyProtocol_SOCKS5_PROXY_PROTOCOL,
+	}
+	if userCtx, ok := proxyConn.(apicommon.UserContext); ok && userCtx.UserName() != "" {
+		in.Env = map[string]string{
+			"user": userCtx.UserName(),
+		}
+	}
+	return func(dst *net.UDPAddr) bool {
+		req := &model.Request{
+			Command: constant.Socks5ConnectCmd,
+			DstAddr: model.AddrSpec{IP: dst.IP, Port: dst.Port},
+		}
+		return s.rejectPrivateAndLoopbackIPAction(ctx, in, req).Action != appctlpb.EgressAction_REJECT
+	}
 }
 
 // handleForwarding forward the request to the egress proxy.
